@@ -107,6 +107,9 @@ def evaluate(plan, ctx):
     ev = ["online" if plan["batch_size"] else "offline", "quick" if plan["is_quick"] else "full"]
     if plan.get("scaler"):
         ev.append("scaler=" + plan["scaler"])
+    if plan.get("binarized"):
+        ev.append("thompson_binarizer")
+    ev.append("data=" + plan.get("data_container", "list"))
     # per-arm statistics
     for scope, idx, got in (("total", list(range(n)), sim.arm_to_stats_total), ("train", tr, sim.arm_to_stats_train),
                             ("test", te, sim.arm_to_stats_test)):
